@@ -73,7 +73,7 @@ pub open spec fn seq_enc<'a, T: WireFormat<'a>>(vs: Seq<T>) -> Seq<u8>
     if vs.len() == 0 { Seq::empty() } else { seq_enc::<T>(vs.drop_last()) + vs.last().wf_enc() }
 }
 pub open spec fn seq_ok<'a, T: WireFormat<'a>>(vs: Seq<T>) -> bool {
-    vs.len() <= 65535 && forall|i: int| 0 <= i < vs.len() ==> (#[trigger] vs[i]).wf_ok()
+    forall|i: int| 0 <= i < vs.len() ==> (#[trigger] vs[i]).wf_ok()
 }
 /// RFC 6891 6.1.2: the OPT pseudo-record written for a header that carries EDNS data
 pub open spec fn opt_rr_enc(h: &Header) -> Seq<u8> {
@@ -657,8 +657,13 @@ impl<'a> Packet<'a> {
     pub closed spec fn pkt_ok(&self) -> bool {
         &&& seq_ok::<Question>(self.questions@) && seq_ok::<ResourceRecord>(self.answers@)
         &&& seq_ok::<ResourceRecord>(self.name_servers@) && seq_ok::<ResourceRecord>(self.additional_records@)
-        &&& (self.header.opt is Some ==> self.additional_records@.len() < 65535 && self.header.opt.unwrap().wf_ok()
-             && self.header.opt.unwrap().wf_enc().len() <= 65535)
+        &&& (self.header.opt is Some ==> self.header.opt.unwrap().wf_ok() && self.header.opt.unwrap().wf_enc().len() <= 65535)
+    }
+    /// the four section counts fit their 16-bit header fields (the writers refuse a packet for which they do not:
+    /// post-condition of write_header, not a precondition)
+    pub closed spec fn counts_fit(&self) -> bool {
+        self.questions@.len() <= 65535 && self.answers@.len() <= 65535 && self.name_servers@.len() <= 65535
+        && self.additional_records@.len() + (if self.header.opt is Some { 1int } else { 0int }) <= 65535
     }
     /// RFC 1035 4.1: header, question, answer, authority, additional (the OPT pseudo-record first)
     pub closed spec fn pkt_enc(&self) -> Seq<u8> {
@@ -774,7 +779,7 @@ impl<'a> Packet<'a> {
     /// representable and the header does not carry one of the unnamed RCODE nibbles 11..15 without EDNS (known finding D11)
     pub proof fn lemma_parsed_ok(&self, data: Seq<u8>)
         requires self.dec_fits(data), data.len() <= 65535, self.rcode_named(data),
-        ensures self.pkt_ok(), self.pkt_canon(), // @C11:parsed-packets-can-be-written-back
+        ensures self.pkt_ok(), self.pkt_canon(), self.counts_fit(), // @C11:parsed-packets-can-be-written-back
     {
         let (p1, p2, p3, p4, add) = choose|p1: int, p2: int, p3: int, p4: int, add: Seq<ResourceRecord<'a>>|
             #[trigger] pkt_dec_w(data, self.questions@, self.answers@, self.name_servers@, self.additional_records@, &self.header, p1, p2, p3, p4, add) && self.fits(add);
@@ -793,7 +798,7 @@ impl<'a> Packet<'a> {
     /// (`w0` is the OPT pseudo-record handed over by the writer; it only serves as the witness of the wire-level additional section)
     proof fn lemma_plain_rt(&self, w0: Seq<ResourceRecord<'a>>)
         requires
-            self.pkt_ok(), self.pkt_canon(),
+            self.pkt_ok(), self.pkt_canon(), self.counts_fit(),
             w0.len() == (if self.header.opt is Some { 1int } else { 0int }),
             self.header.opt is Some ==> w0[0].name.lv() =~= Seq::<Seq<u8>>::empty() && w0[0].class == crate::CLASS::IN && w0[0].cache_flush == false
                 && w0[0].ttl == opt_ttl(self.header.response_code, self.header.opt.unwrap().version)
@@ -820,7 +825,7 @@ impl<'a> Packet<'a> {
     /// additional section decodes to this packet
     proof fn lemma_assemble(&self, m: Seq<u8>, p1: int, p2: int, p3: int, w0: Seq<ResourceRecord<'a>>)
         requires
-            self.pkt_ok(), self.pkt_canon(), m.len() >= 12, 12 <= p1 <= p2 <= p3 <= m.len(),
+            self.pkt_ok(), self.pkt_canon(), self.counts_fit(), m.len() >= 12, 12 <= p1 <= p2 <= p3 <= m.len(),
             m.subrange(0, 12) == hdr_enc(&self.hdr(), self.questions@.len() as u16, self.answers@.len() as u16, self.name_servers@.len() as u16,
                 (self.additional_records@.len() + if self.hdr().opt is Some { 1int } else { 0int }) as u16),
             chain::<Question>(m, 12, self.questions@, p1),
@@ -1020,15 +1025,18 @@ def apply(c):
         ensures (r is Ok) == (len <= 65535), r is Ok ==> r.unwrap() == len, // @C04:counts-not-truncated
 """)
     c.contract(rel, P_IMPL, 'write_header', """
-        requires self.pkt_ok(),
-        ensures r is Ok ==> wrote(old(out), final(out), hdr_enc(&self.header, self.questions@.len() as u16, self.answers@.len() as u16,
-            self.name_servers@.len() as u16, (self.additional_records@.len() + if self.header.opt is Some { 1int } else { 0int }) as u16)), // @C04:header-counts,C09:arcount-includes-opt
-""")
+        ensures
+            r is Ok ==> wrote(old(out), final(out), hdr_enc(&self.header, self.questions@.len() as u16, self.answers@.len() as u16,
+                self.name_servers@.len() as u16, (self.additional_records@.len() + if self.header.opt is Some { 1int } else { 0int }) as u16)), // @C04:header-counts,C09:arcount-includes-opt
+            r is Ok ==> self.counts_fit(), // @C04:counts-not-truncated
+            !self.counts_fit() ==> r is Err, // @C04:counts-not-truncated
+""", pre_body="\n        proof { crate::vx::axiom_vec_len_bound(&self.additional_records); }\n")
     c.contract(rel, P_IMPL, 'write_to', """
         requires self.pkt_ok(),
         ensures
             r is Ok ==> wrote(old(out), final(out), self.pkt_enc()), // @C04:exactly-the-entries,C02:packet-encoding,C09:one-opt-record
             r is Ok && self.pkt_canon() ==> self.dec(self.pkt_enc()), // @C02:decode-of-encode,C11:decode-of-encode
+            r is Ok ==> self.counts_fit(), // @C04:counts-not-truncated
 """, pre_body="""
         let ghost e0 = hdr_enc(&self.header, self.questions@.len() as u16, self.answers@.len() as u16, self.name_servers@.len() as u16,
                 (self.additional_records@.len() + if self.header.opt is Some { 1int } else { 0int }) as u16);
